@@ -245,7 +245,7 @@ func (fc *FuncCtx) verifyBody(short string) {
 			o.Name = fmt.Sprintf("%s/post#%d", short, i+1)
 		}
 		if o != nil {
-			fc.modelTerms(o, fr, results)
+			fc.modelTerms(o, fr, results, exit)
 		}
 		fc.clauseHit[en]++
 	}
@@ -268,15 +268,35 @@ func labelOr(a, b string) string {
 }
 
 // modelTerms registers the terms whose values are wanted in a counterexample: scalar parameters and results.
-func (fc *FuncCtx) modelTerms(o *Obligation, fr *Frame, results []Value) {
+func (fc *FuncCtx) modelTerms(o *Obligation, fr *Frame, results []Value, exit *State) {
+	if len(o.ModelTerms) > 0 {
+		return
+	}
+	o.Fn = fr.fn
+	push := func(name, term, sort string) {
+		o.ModelTerms = append(o.ModelTerms, term)
+		o.ModelNames = append(o.ModelNames, name)
+		o.ModelSorts = append(o.ModelSorts, sort)
+	}
 	add := func(name string, v Value) {
 		switch x := v.(type) {
 		case Scalar:
-			o.ModelTerms = append(o.ModelTerms, x.T)
-			o.ModelNames = append(o.ModelNames, name)
+			push(name, x.T, x.Sort)
 		case SliceV:
-			o.ModelTerms = append(o.ModelTerms, x.Len)
-			o.ModelNames = append(o.ModelNames, "len("+name+")")
+			push("len("+name+")", x.Len, fc.intSort())
+			st := fr.entry
+			if strings.HasPrefix(name, "result:") {
+				st = exit
+			}
+			if bt, ok := x.Elem.Underlying().(*types.Basic); ok && bt.Kind() == types.Uint8 && st != nil && fc.u.quant == 0 {
+				// the first bytes of a byte-slice parameter as they are on entry / of a byte-slice result on exit
+				for k := 0; k < 24; k++ {
+					pl := fc.elemPlace(x.Base, fc.elemIdx(x.Off, fc.ilit(int64(k))), x.Elem)
+					if sc, ok := fc.loadPlace(st, pl).(Scalar); ok {
+						push(fmt.Sprintf("%s[%d]", name, k), sc.T, sc.Sort)
+					}
+				}
+			}
 		}
 	}
 	var names []string
@@ -289,7 +309,7 @@ func (fc *FuncCtx) modelTerms(o *Obligation, fr *Frame, results []Value) {
 	}
 	for i, r := range results {
 		if i < len(fr.resultNames) {
-			add("result:"+fr.resultNames[i], r)
+			add(fmt.Sprintf("result:%d:%s", i, fr.resultNames[i]), r)
 		}
 	}
 }
@@ -418,7 +438,7 @@ func (fc *FuncCtx) verifyPaths(fr *Frame, st *State, entrySnap *State, short str
 			}
 			o := fc.oblige(fr, r.st, "post", label+fmt.Sprintf(".path%d", pi+1), g, fn.Pos(), "postcondition (path "+fmt.Sprint(pi+1)+", return at "+fc.posStr(r.pos)+"): "+en.Src)
 			if o != nil {
-				fc.modelTerms(o, fr, r.vals)
+				fc.modelTerms(o, fr, r.vals, r.st)
 			}
 			fc.clauseHit[en]++
 		}
